@@ -332,12 +332,13 @@ func (c *c05) RunCase(r *fw.Rec, cs fw.Case) {
 		})
 		close(done)
 	}()
-	select {
-	case <-done:
-	case <-time.After(50 * time.Second):
+	switch fw.WaitOrHang(done, 50*time.Second) {
+	case "hang":
 		removeProbe()
-		r.Violate("no-return", "RunContext did not return within 50 s (instruction budget 3*10^7)", detail)
+		r.Violate("no-return", "RunContext did not return (50 s of CPU time spent, or blocked for 50 s; instruction budget 3*10^7)", detail)
 		panic("verif: worker abandoned after a hang")
+	case "inconclusive":
+		fw.AbandonInconclusive("RunContext had not returned after 1000 s on a loaded machine")
 	}
 	removeProbe()
 	r.Eval()
@@ -399,9 +400,11 @@ func (c *c05) RunCase(r *fw.Rec, cs fw.Case) {
 	}
 	// lock liveness + second run
 	recovered := false
-	live := make(chan error, 1)
+	var liveErr error
+	liveDone := make(chan struct{})
 	go func() {
-		live <- safely(func() error {
+		defer close(liveDone)
+		liveErr = safely(func() error {
 			_ = cp.Get("res")
 			if e := cp.Set("nosuch_variable", 1); e == nil {
 				return fmt.Errorf("Set of an undeclared name succeeded")
@@ -429,9 +432,9 @@ func (c *c05) RunCase(r *fw.Rec, cs fw.Case) {
 			return nil
 		})
 	}()
-	select {
-	case e := <-live:
-		if e != nil {
+	switch fw.WaitOrHang(liveDone, 45*time.Second) {
+	case "done":
+		if e := liveErr; e != nil {
 			detail["second_use"] = e.Error()
 			if p, ok := isPanic(e); ok {
 				detail["stack"] = trunc(p.stack, 2500)
@@ -439,9 +442,11 @@ func (c *c05) RunCase(r *fw.Rec, cs fw.Case) {
 			r.Violate("unusable-after-run:second-use", "the compiled object is not usable for further Get/Set/Run calls", detail)
 			return
 		}
-	case <-time.After(45 * time.Second):
+	case "hang":
 		r.Violate("unusable-after-run:deadlock", "Get/Set/RunContext after the run did not return (lock left held?)", detail)
 		panic("verif: worker abandoned after a hang")
+	default:
+		fw.AbandonInconclusive("Get/Set/RunContext after the run had not returned after 900 s on a loaded machine")
 	}
 	r.Inc("post-run-checks")
 	if recovered {
